@@ -75,3 +75,29 @@ package staticfiles
 //@   ensures [every_hidden_path_looked_up_now] !result ==> opens == old(opens) + len(fs.Hide)
 //@   loop 1 invariant 0 <= #i && #i <= len(old(fs.Hide)) && opens == old(opens) + #i
 //@   loop 1 invariant forall(k, 0, #i, !hides(k))
+
+//@ unit file_server_convention props=C12 filter=`staticfiles\.FileServer\)\.(serveFile|ServeHTTP)$`
+//@ // C12 for the innermost handler of every site: an error status (>= 400) is returned only when nothing was sent, and a
+//@ // response is sent at most once - by the canonical-path redirect (then 0 is returned) or by http.ServeContent (then 200).
+//@ ghost sent int
+//@ extern net/http.Redirect
+//@   modifies ghost:sent
+//@   ensures sent == old(sent) + 1
+//@ extern net/http.ServeContent
+//@   modifies ghost:sent
+//@   ensures sent == old(sent) + 1
+//@ func (FileServer).serveFile
+//@   requires r != nil && r.URL != nil
+//@   modifies ghost:sent
+//@   ensures [error_status_means_nothing_was_sent] result0 >= 400 ==> sent == old(sent)
+//@   ensures [otherwise_exactly_one_response] result0 < 400 ==> (sent == old(sent) + 1 && (result0 == 0 || result0 == 200))
+//@   loop 1 invariant sent == old(sent)
+//@   loop 2 invariant sent == old(sent)
+//@   loop 3 invariant sent == old(sent)
+//@   loop 4 invariant sent == old(sent)
+//@   loop 5 invariant sent == old(sent)
+//@ func (FileServer).ServeHTTP
+//@   requires r != nil && r.URL != nil
+//@   modifies ghost:sent
+//@   ensures [error_status_means_nothing_was_sent] result0 >= 400 ==> sent == old(sent)
+//@   ensures [otherwise_exactly_one_response] result0 < 400 ==> sent == old(sent) + 1
